@@ -53,6 +53,15 @@ type prog struct {
 	ar     []int
 	nl     []string // for every line break of the spelling: "token before|token after"
 	nodes  int
+	rep    int // > 0: the text parsed is rep copies of "{\n" + src + "\n}\n" (kind "parses")
+}
+
+// text is what is handed to js.Parse
+func (p *prog) text() string {
+	if p.rep > 0 {
+		return strings.Repeat("{\n"+p.src+"\n}\n", p.rep)
+	}
+	return p.src
 }
 
 var poolName = regexp.MustCompile(`^[a-z][1]?$`)
@@ -245,6 +254,10 @@ func expand(c *tcase, seed int64, line int, muts int) []prog {
 	return out
 }
 
+// RepCount is how often a program is repeated (as a block) in the repetition cases: above every per-statement limit of the
+// parser (1000 nested expressions)
+const RepCount = 1100
+
 var allOpts = []js.Options{{}, {WhileToFor: true}, {Inline: true}, {WhileToFor: true, Inline: true}}
 
 type result struct {
@@ -268,7 +281,7 @@ func runProg(p *prog) result {
 	if p.nl == nil {
 		p.nl = []string{}
 	}
-	open := tr.E{"src": tr.Ints([]byte(p.src)), "kind": p.kind, "why": p.why, "canon": tr.Ints([]byte(p.canon)), "canonw": tr.Ints([]byte(p.canonw)), "ops": p.ops, "pairs": p.pairs, "ar": p.ar, "nl": p.nl, "nodes": p.nodes}
+	open := tr.E{"src": tr.Ints([]byte(p.src)), "kind": p.kind, "why": p.why, "canon": tr.Ints([]byte(p.canon)), "canonw": tr.Ints([]byte(p.canonw)), "ops": p.ops, "pairs": p.pairs, "ar": p.ar, "nl": p.nl, "nodes": p.nodes, "rep": p.rep}
 	res.evs = append(res.evs, open)
 	for oi, o := range allOpts {
 		ev := tr.E{"opts": oi, "w2f": o.WhileToFor}
@@ -281,11 +294,14 @@ func runProg(p *prog) result {
 					res.mismatch = true
 				}
 			}()
-			ast, err := js.Parse(parse.NewInputString(p.src), o)
+			ast, err := js.Parse(parse.NewInputString(p.text()), o)
 			ok := err == nil && ast != nil
 			ev["ok"] = ok
 			if ok {
-				s := ast.String()
+				s := ""
+				if p.rep == 0 {
+					s = ast.String()
+				}
 				ev["str"] = tr.Ints([]byte(s))
 				want := p.canon
 				if o.WhileToFor {
@@ -374,6 +390,7 @@ func Replay(args []string) {
 	}
 	seenSrc := map[string]bool{}
 	ops := map[string]bool{}
+	repOps := map[string]bool{}
 	// expand sequentially (deterministic), run in parallel, write in order
 	const chunk = 4096
 	tid := 0
@@ -418,6 +435,35 @@ func Replay(args []string) {
 				seenSrc[key] = true
 				progs = append(progs, pp)
 			}
+		}
+		// repetition: a derivable program that is a statement list stays derivable as the body of a block, and a sequence of
+		// blocks is a statement list -- so RepCount blocks in a row parse; whatever the parser counts while parsing one
+		// statement (nesting depth of expressions and binding patterns, pending parentheses) must be given back at its end.
+		// One program for every operator / construct kind not yet repeated.
+		for i := lo; i < hi; i++ {
+			a := &cs[i]
+			if a.Kind != "accept" || len(a.Toks) == 0 || strings.HasPrefix(a.Toks[0], "<") {
+				continue
+			}
+			fresh, module := false, false
+			for _, o := range a.Ops {
+				if !repOps[o] {
+					fresh = true
+				}
+			}
+			for _, t := range a.Toks {
+				if t == "import" || t == "export" {
+					module = true
+				}
+			}
+			if !fresh || module {
+				continue
+			}
+			for _, o := range a.Ops {
+				repOps[o] = true
+			}
+			pa := expand(a, *seed, i, 0)[0]
+			progs = append(progs, prog{src: pa.src, kind: "parses", why: "repetition", ops: pa.ops, ar: pa.ar, nodes: pa.nodes, rep: RepCount})
 		}
 		// probes after every derivable program that ends with ';': the statement `a in b;` stays derivable (the [In] parameter
 		// of a new statement does not depend on the statements before it)
@@ -551,12 +597,13 @@ func File(args []string) {
 			Ar     []int    `json:"ar"`
 			Nl     []string `json:"nl"`
 			Nodes  int      `json:"nodes"`
+			Rep    int      `json:"rep"`
 		}
 		if err := json.Unmarshal(raw, &c); err != nil {
 			fmt.Fprintln(os.Stderr, "bad line", err)
 			os.Exit(2)
 		}
-		p := prog{src: string(toBytes(c.Src)), kind: c.Kind, why: c.Why, canon: string(toBytes(c.Canon)), canonw: string(toBytes(c.CanonW)), ops: c.Ops, pairs: c.Pairs, ar: c.Ar, nl: c.Nl, nodes: c.Nodes}
+		p := prog{src: string(toBytes(c.Src)), kind: c.Kind, why: c.Why, canon: string(toBytes(c.Canon)), canonw: string(toBytes(c.CanonW)), ops: c.Ops, pairs: c.Pairs, ar: c.Ar, nl: c.Nl, nodes: c.Nodes, rep: c.Rep}
 		r := runProg(&p)
 		tid++
 		w.Begin(tid)
